@@ -256,3 +256,58 @@ Lemma C01_shared_label_refuted :
                 str_eqb p (ex "p") && card_eqb c (CExact 2) end) (figures l))
              (stmts_of base_rcfg thr0 g_shared (ex "C0")) = Some true.
 Proof. vm_compute. reflexivity. Qed.
+
+(** ** SHAPE-MAP runs ([Model.RunMap.run_shapes_map]: targets given by a shape
+    map, alone or next to all_classes_mode -- or by any other specification of
+    C10).  [I] is the dictionary C10's tracker model [Selectors.run] returns on
+    the specification, the oracles and the graph: [node -> keys], a key being a
+    class IRI or a label [<iri>].  NO hypothesis on the specification, the
+    oracles (rdflib's identifiers and answers) or the graph: P1's side
+    condition [NoDup (dkeys I)] holds for every dictionary the trackers build
+    ([C01_map_dictionary_keys_unique]).  Header count of the shape of key [K] =
+    [class_count I K] (number of listings of [K]: = number of nodes when no
+    node lists [K] twice, which C10 proves for labels: [C10_labels_once]);
+    every figure = [occ] w.r.t. [I] ([fig_occ], the NONLITERAL sum included,
+    as for class runs). *)
+From Shexer Require Import Model.RunMap Proofs.RunMapProofs.
+From Shexer Require Model.Selectors.
+
+Theorem C01_map_dictionary_keys_unique : forall orc sp g I,
+  Selectors.run orc sp g = Selectors.OOk I -> NoDup (dkeys I).
+Proof. exact run_keys_nodup. Qed.
+Print Assumptions C01_map_dictionary_keys_unique.
+
+Theorem C01_map_run_decompose : forall fa c orc sp thr g ns shapes,
+  run_shapes_map fa c orc sp thr g = inl (ns, shapes) <->
+  exists I targets P C ID,
+    r_disable_or c && r_allow_redundant_or c = false /\
+    Selectors.find_adequate_prefix (Selectors.sp_ns sp) <> None /\
+    ns = Selectors.ns_with_shapes orc sp /\
+    Selectors.run orc sp g = Selectors.OOk I /\
+    prof_targets orc sp = Selectors.Ok targets /\
+    profile (pcfg_map c orc sp targets) I g = inl (P, C, ID) /\
+    shex fa (scfg_map c sp ns) thr P C = inl shapes.
+Proof. exact run_shapes_map_ok_iff. Qed.
+Print Assumptions C01_map_run_decompose.
+
+Theorem C01_map_figures_exact : forall fa c orc sp thr g ns shapes,
+  run_shapes_map fa c orc sp thr g = inl (ns, shapes) ->
+  exists I targets,
+    Selectors.run orc sp g = Selectors.OOk I /\ NoDup (dkeys I) /\ prof_targets orc sp = Selectors.Ok targets /\
+    forall sh, In sh shapes ->
+      In (sh_class sh) (class_keys (targets_of (pcfg_map c orc sp targets)) I) /\
+      sh_name sh = shape_name dflt_shapes_namespace (sh_class sh) /\
+      sh_n sh = class_count I (sh_class sh) /\
+      forall st, In st (sh_stmts sh) ->
+        (s_inv st = true -> r_inverse c = true) /\
+        post_okR (scfg_map c sp ns)
+                 (fig_occ (Selectors.tau_of sp) I g (dir_of (s_inv st)) (sh_class sh) (s_prop st)) st.
+Proof. exact map_figures. Qed.
+Print Assumptions C01_map_figures_exact.
+
+(** non-vacuity: the pinned shape-map run (Proofs/RunMapWitness.v) *)
+From Shexer Require Import Proofs.RunMapWitness.
+Example C01_map_nonvacuous :
+  exists ns shapes, run_shapes_map BAlg (with_kls false base_rcfg) m_orc m_spec (b_ratio 1 2) m_graph = inl (ns, shapes) /\
+                    map (fun sh => (sh_class sh, sh_n sh)) shapes = [(lab_S, 3%N)].
+Proof. eexists. eexists. split; vm_compute; reflexivity. Qed.
